@@ -57,7 +57,7 @@ struct Shared {
 
 fn main() {
     let cfg = Config::from_env();
-    let stalls = std::env::var("MAYV_STALL").is_ok();
+    let stalls = std::env::var("MAYV_STALL").is_ok() || std::env::var("MAYV_STALL_AT").is_ok();
     let nact = envn("MAYV_ADDERS", 3).clamp(1, 4) as usize;
     let ops = envn("MAYV_OPS", 4).clamp(1, 12) as usize;
     let durset = DURSETS[(envn("MAYV_DURSET", 0) as usize) % DURSETS.len()];
